@@ -17,7 +17,7 @@ func init() {
 		Doc: "in every gossip validator, after a Mark* call on the seen-cache only ACCEPT returns are reachable, and every ACCEPT return is cut off from the entry by the Mark* call of each Seen* key the function consults",
 		Run: ruleGossipMark})
 	register(&Rule{Name: "gossip.verdict", Floor: 80,
-		Doc: "every refusal in a gossip validator carries the verdict class of the outcome that governs it: timing/availability outcomes (seen, unknown block/parent/target, clock window, chain-view lookups) IGNORE and never REJECT; validity outcomes (bad signature, bad block, process_* condition, malformed bits/indices) REJECT and never IGNORE; no refusal branch yields ACCEPT, and ACCEPT is only the final return",
+		Doc: "every refusal in a gossip validator carries the verdict class of the outcomes that govern it, read off the control-flow graph (the tests from which an edge reaches the returning block through non-branching blocks: nesting, early returns, else branches and switch cases give the same edges): timing/availability outcomes (seen, unknown block/parent/target, clock window, chain-view lookups) IGNORE and never REJECT; validity outcomes (bad signature, bad block, process_* condition, malformed bits/indices) REJECT and never IGNORE; and no test that decides whether an ACCEPT is reached leads on its other edge to another ACCEPT (messages accepted without the checks that follow)",
 		Run: ruleGossipVerdict})
 }
 
